@@ -229,6 +229,8 @@ func checkC06(c *core.Ctx) {
 	narrowGuardAgreement(c, r3)
 	r4 := c.Rule("R6.4", "T", "a serializer links an extension header in front of the upper-layer protocol only under a guard that fails once it is linked")
 	chainInsertGuarded(c, r4)
+	r5 := c.Rule("R6.5", "T", "a list written element by element with PrependBytes is walked from its last element down")
+	listOrderUnderPrepend(c, r5)
 	sl := p.Iface("", "SerializableLayer")
 	nTypes, nPaired := 0, 0
 	for _, d := range roots.Dec {
